@@ -2,4 +2,4 @@ From Coq Require Import ExtrOcamlBasic.
 From Coq Require Import ZArith.
 From MT Require Import Sync.SyncModel.
 Extraction Language OCaml.
-Separate Extraction BinNums.N BinInt.Z.add BinInt.Z.mul BinInt.Z.opp BinInt.Z.div_eucl init_state step label lval lqueue ret_ok holds mword mq cqs festat thr.
+Separate Extraction BinNums.N BinInt.Z.add BinInt.Z.mul BinInt.Z.opp BinInt.Z.div_eucl init_state step label lval lqueue ret_ok ncbs holds mword mq cqs festat thr.
